@@ -73,6 +73,8 @@ pub struct Board {
     /// global low-level operation counter (pin sets, SPI transactions, recording-interface calls)
     pub ops: u64,
     pub faults: Vec<Fault>,
+    /// one-shot faults addressed by pin: the next operation on that pin fails
+    pub pin_faults: Vec<(u8, FaultMode)>,
     /// Index of ops that failed
     pub failed_ops: Vec<u64>,
     /// remaining low-level operations before a termination violation is raised
@@ -97,6 +99,7 @@ impl Board {
             now_ns: 0,
             ops: 0,
             faults: Vec::new(),
+            pin_faults: Vec::new(),
             failed_ops: Vec::new(),
             budget: u64::MAX,
             word_budget: u64::MAX,
@@ -161,8 +164,13 @@ impl VPin {
     #[inline]
     fn set(&mut self, high: bool) -> Result<(), PinFault> {
         let mut b = self.bd.borrow_mut();
-        let (op, f) = b.next_op();
+        let (op, mut f) = b.next_op();
         let pin = self.pin;
+        if let Some(k) = b.pin_faults.iter().position(|x| x.0 == pin) {
+            let (_, m) = b.pin_faults.remove(k);
+            f = Some(m);
+            b.failed_ops.push(op);
+        }
         let (ok, applied) = match f {
             None => (true, true),
             Some(FaultMode::Unchanged) => (false, false),
